@@ -164,3 +164,26 @@ def run(ctx):
         eof = [(sb, tt, ff) for sb, sym, tt, ff in bool_switches(top) if sym[0] == "call" and sym[1] == P + "eof"]
         errb = [b for b, t in top.calls() if fx.callee(t) == P + "err"]
         ctx.check(bool(eof) and all(must_pass(top, [ff], errb) for sb, tt, ff in eof), "DOM", "C19:DOM:trailing-characters", "trailing characters after the expression are an error", "trailing characters after an expression are accepted", config, ctx.where(top))
+        # ---- IDENTITY: a scalar without operators keeps its parsed value bit for bit (−0.0, NaN payloads): along the
+        # chain expr -> term the result variable is *initialised from* the nested call's value; arithmetic is applied only
+        # when an operator was read.  (Folding the first operand into a zero / one accumulator loses the sign of −0.0.)
+        for outer, inner in (("expr", "term"), ("term", "unary")):
+            g = fx.fn(P + outer)
+            vlocals = set()
+            for b, i, adt, var, fl, ops, s_ in aggregates(g):
+                if s_["p"]["l"] == 0 and var == "Ok":
+                    tup = g.sym_operand(s_["rv"]["ops"][0])
+                    # shallow: named locals are roots -> ('aggr', 'tuple', .., [v, used_unit, saw_plain])
+                    if tup[0] == "aggr" and tup[4] and tup[4][0][0] == "local":
+                        vlocals.add(tup[4][0][1])
+            okid = False
+            defs = []
+            for b, i, s_ in g.stmts():
+                if s_["k"] == "assign" and not s_["p"]["pr"] and s_["p"]["l"] in vlocals:
+                    with g.deep():
+                        v = g.sym_rvalue(s_["rv"])
+                    defs.append(render(v)[:60])
+                    direct = not sym_contains(v, lambda x: x[0] in ("bin", "un", "const")) and sym_contains(v, lambda x: x[0] == "call" and x[1] == P + inner)
+                    okid = okid or direct
+            ctx.check(bool(vlocals) and okid, "IDENTITY", "C19:IDENTITY:%s" % outer, "%s initialises its result from %s()'s value without arithmetic" % (outer, inner),
+                      "%s no longer passes a lone operand through unchanged (definitions of the result: %s): `-0.0` evaluates to `+0.0` with the option on, and 1/(-0.0) to +inf" % (outer, defs), config, ctx.where(g))
